@@ -21,18 +21,44 @@ type params struct {
 	// per address: "ok" (establishes, honours ctx), "fail", "failctx" (fails with an error that wraps a context error although the
 	// caller's context is alive: a dialer with its own per-attempt timeout), "lateok" (establishes even after ctx is cancelled, as a
 	// dialer whose connect already succeeded in the kernel does), "hang" (completes only with ctx's error)
+	// "okhs": the connection is established, honours ctx like "ok", but every write on it fails, so the transport (or obfuscation)
+	// handshake that follows the dial fails: an established connection that can be neither returned nor left open
 	Dials  []string `json:"dials"`
 	Cancel bool     `json:"cancel"` // the caller cancels at an arbitrary point
+	// Entry: which resolver entry point is driven: "" Primary, "media" MediaOnly (addresses flagged media-only), "cdn" CDN (flagged CDN)
+	Entry string `json:"entry,omitempty"`
+	// Obf: "" plain Intermediate; "all" PlainOptions.Obfuscated (Obfuscated2 around every connection); "dc" every address is
+	// TCPObfuscatedOnly with a valid dd-secret; "badsecret" every address is TCPObfuscatedOnly with a secret that does not parse
+	// (the failure is detected after the connection was established)
+	Obf string `json:"obf,omitempty"`
+}
+
+// fails: address i cannot yield a usable connection; identifiable: its failure is a dialErr{i} that the combined error must contain.
+func (p params) fails(i int) bool {
+	k := p.Dials[i]
+	return k == "fail" || k == "failctx" || k == "okhs" || (p.Obf == "badsecret" && (k == "ok" || k == "lateok"))
+}
+
+func (p params) identifiable(i int) bool {
+	k := p.Dials[i]
+	return k == "fail" || k == "failctx" || k == "okhs"
 }
 
 type fconn struct {
-	id     int
-	o      *sx.Obs
-	closed bool
+	id        int
+	o         *sx.Obs
+	closed    bool
+	failWrite bool
 }
 
-func (c *fconn) Read(b []byte) (int, error)  { return 0, errors.New("read not expected") }
-func (c *fconn) Write(b []byte) (int, error) { return len(b), nil }
+func (c *fconn) Read(b []byte) (int, error) { return 0, errors.New("read not expected") }
+func (c *fconn) Write(b []byte) (int, error) {
+	if c.failWrite {
+		c.o.Log("write-fail c%d", c.id)
+		return 0, fmt.Errorf("write: broken pipe: %w", dialErr{c.id})
+	}
+	return len(b), nil
+}
 func (c *fconn) Close() error {
 	if !c.closed {
 		c.closed = true
@@ -69,7 +95,7 @@ func body(p params, o *sx.Obs) {
 		kind := p.Dials[i]
 		o.Log("dial-begin %d", i)
 		switch kind {
-		case "ok", "fail", "failctx":
+		case "ok", "okhs", "fail", "failctx":
 			vsched.Cond(fmt.Sprintf("dial%d", i), func() bool { return decided[i] || ctxDone(ctx) })
 			if !decided[i] {
 				o.Log("dial-ctx %d", i)
@@ -90,20 +116,36 @@ func body(p params, o *sx.Obs) {
 			o.Log("dial-fail %d", i)
 			return nil, fmt.Errorf("dial attempt timed out: %w (%w)", context.DeadlineExceeded, dialErr{i})
 		}
-		conns[i] = &fconn{id: i, o: o}
+		conns[i] = &fconn{id: i, o: o, failWrite: kind == "okhs"}
 		o.Log("established c%d", i)
 		return conns[i], nil
 	}
-	r := dcs.Plain(dcs.PlainOptions{Dial: dial, Rand: kit.NewStream(1)})
+	r := dcs.Plain(dcs.PlainOptions{Dial: dial, Rand: kit.NewStream(1), Obfuscated: p.Obf == "all"})
 	var opts []tg.DCOption
 	for i := range p.Dials {
-		opts = append(opts, tg.DCOption{ID: 2, IPAddress: fmt.Sprintf("10.0.0.%d", i), Port: 443})
+		opt := tg.DCOption{ID: 2, IPAddress: fmt.Sprintf("10.0.0.%d", i), Port: 443, MediaOnly: p.Entry == "media", CDN: p.Entry == "cdn"}
+		switch p.Obf {
+		case "dc":
+			opt.TCPObfuscatedOnly = true
+			opt.Secret = append([]byte{0xdd}, kit.Pattern("count", 16)...)
+		case "badsecret":
+			opt.TCPObfuscatedOnly = true
+			opt.Secret = []byte{1, 2, 3}
+		}
+		opts = append(opts, opt)
+	}
+	resolve := r.Primary
+	switch p.Entry {
+	case "media":
+		resolve = r.MediaOnly
+	case "cdn":
+		resolve = r.CDN
 	}
 	ctx, cancel := vctx.WithCancel(vctx.Background())
 	var g sx.Group
 	finished := false
 	g.Go("connect", func() {
-		c, err := r.Primary(ctx, 2, dcs.List{Options: opts})
+		c, err := resolve(ctx, 2, dcs.List{Options: opts})
 		switch {
 		case err == nil && c != nil:
 			// identify the returned transport connection by closing nothing: ask which fake conn it wraps
@@ -201,10 +243,10 @@ func check(p params, o *sx.Obs, x *vsched.Sched) kit.Result {
 		if !p.Cancel {
 			// no cancellation: an error is only allowed when every address failed, and must combine all failures
 			for i, k := range p.Dials {
-				if k != "fail" && k != "failctx" {
+				if !p.fails(i) {
 					return kit.Bad("error-despite-success", "resolver failed although address %d (%s) can be established and nobody cancelled", i, k)
 				}
-				if !contains(strings.Split(dialerrs, ","), fmt.Sprint(i)) {
+				if p.identifiable(i) && !contains(strings.Split(dialerrs, ","), fmt.Sprint(i)) {
 					return kit.Bad("error-not-combined", "returned error does not include the failure of address %d (has %q)", i, dialerrs)
 				}
 			}
@@ -221,7 +263,7 @@ func main() {
 		var rec func(cur []string, n int)
 		rec = func(cur []string, n int) {
 			if len(cur) == n {
-				scs = append(scs, params{append([]string{}, cur...), false}, params{append([]string{}, cur...), true})
+				scs = append(scs, params{Dials: append([]string{}, cur...)}, params{Dials: append([]string{}, cur...), Cancel: true})
 				return
 			}
 			for _, k := range kinds {
@@ -229,15 +271,31 @@ func main() {
 			}
 		}
 		rec(nil, 2)
-		scs = append(scs, params{[]string{"hang", "ok"}, false}, params{[]string{"hang", "hang"}, true}, params{[]string{"hang", "fail"}, true})
-		scs = append(scs, params{[]string{"failctx", "fail"}, false}, params{[]string{"fail", "failctx"}, false}, params{[]string{"failctx", "failctx"}, false},
-			params{[]string{"failctx", "ok"}, false}, params{[]string{"failctx", "lateok"}, true})
+		scs = append(scs, params{Dials: []string{"hang", "ok"}, Cancel: false}, params{Dials: []string{"hang", "hang"}, Cancel: true}, params{Dials: []string{"hang", "fail"}, Cancel: true})
+		scs = append(scs, params{Dials: []string{"failctx", "fail"}, Cancel: false}, params{Dials: []string{"fail", "failctx"}, Cancel: false}, params{Dials: []string{"failctx", "failctx"}, Cancel: false},
+			params{Dials: []string{"failctx", "ok"}, Cancel: false}, params{Dials: []string{"failctx", "lateok"}, Cancel: true})
 		three := [][]string{{"ok", "ok", "ok"}, {"fail", "fail", "fail"}, {"fail", "ok", "lateok"}, {"lateok", "lateok", "fail"}, {"ok", "fail", "hang"}}
 		for _, d := range three {
-			scs = append(scs, params{d, false}, params{d, true})
+			scs = append(scs, params{Dials: d}, params{Dials: d, Cancel: true})
 		}
+		// handshake failure after establishment (the connection exists but cannot be returned): alone, against every other outcome, with cancel
+		scs = append(scs,
+			params{Dials: []string{"okhs", "okhs"}}, params{Dials: []string{"okhs", "ok"}}, params{Dials: []string{"ok", "okhs"}},
+			params{Dials: []string{"okhs", "fail"}}, params{Dials: []string{"lateok", "okhs"}},
+			params{Dials: []string{"okhs", "ok"}, Cancel: true}, params{Dials: []string{"okhs", "lateok"}, Cancel: true})
+		// non-default options: Obfuscated2 around every connection, obfuscated-only addresses with a good / an unparsable secret
+		scs = append(scs,
+			params{Dials: []string{"okhs", "ok"}, Obf: "all"}, params{Dials: []string{"okhs", "okhs"}, Obf: "all"}, params{Dials: []string{"ok", "lateok"}, Cancel: true, Obf: "all"},
+			params{Dials: []string{"okhs", "ok"}, Obf: "dc"}, params{Dials: []string{"lateok", "ok"}, Obf: "dc"},
+			params{Dials: []string{"ok", "ok"}, Obf: "badsecret"}, params{Dials: []string{"fail", "lateok"}, Obf: "badsecret"})
+		// the other entry points that race dials (MediaOnly, CDN)
+		scs = append(scs,
+			params{Dials: []string{"ok", "okhs"}, Entry: "media"}, params{Dials: []string{"ok", "lateok"}, Cancel: true, Entry: "media"},
+			params{Dials: []string{"fail", "fail"}, Entry: "cdn"}, params{Dials: []string{"lateok", "ok"}, Cancel: true, Entry: "cdn"})
 		if c.Thorough() {
-			scs = append(scs, params{[]string{"ok", "lateok", "fail", "ok"}, true}, params{[]string{"fail", "fail", "fail", "lateok"}, false})
+			scs = append(scs, params{Dials: []string{"okhs", "lateok", "ok"}, Cancel: true}, params{Dials: []string{"okhs", "ok", "fail"}, Obf: "all"},
+				params{Dials: []string{"ok", "okhs", "lateok"}, Cancel: true, Entry: "cdn"}, params{Dials: []string{"okhs", "fail", "ok", "lateok", "fail"}})
+			scs = append(scs, params{Dials: []string{"ok", "lateok", "fail", "ok"}, Cancel: true}, params{Dials: []string{"fail", "fail", "fail", "lateok"}, Cancel: false})
 		}
 		mk := func(p params) sx.Scenario[params] {
 			fb := 3
@@ -255,7 +313,8 @@ func main() {
 			bound = 3
 		}
 		c.Rule("real dcs.Plain resolver (instrumented telegram/dcs) with a fake dialer whose completions are environment events: 2-3 (thorough 4) "+
-			"addresses x outcome {ok, fail, fail with an error wrapping a context error, late ok after cancellation, hang} x optional caller cancel; every schedule with <= %d preemptions (3-address "+
+			"addresses (thorough one 5-address scenario, one preemption less) x outcome {ok, established but the handshake write fails, fail, fail with an error wrapping a context error, late ok after "+
+			"cancellation, hang} x optional caller cancel x entry point {Primary, MediaOnly, CDN} x options {plain, Obfuscated, obfuscated-only addresses with a good / an unparsable secret}; every schedule with <= %d preemptions (3-address "+
 			"scenarios one less in quick) and at most 3 (thorough 6) non-default choices among the cost-free ones (thread order at blocking points); oracle at quiescence: exactly one of {connection, error}; with a connection exactly that one stays open and every "+
 			"other established connection was closed; with an error none stays open; without cancellation an error only if all dials failed and it includes each failure.", bound)
 		if c.Fork(len(scs), 16) {
@@ -264,6 +323,9 @@ func main() {
 		b := bound
 		if len(scs[c.Shard].Dials) > 2 && !c.Thorough() {
 			b = bound - 1
+		}
+		if len(scs[c.Shard].Dials) > 4 {
+			b = bound - 1 // the 5-address scenario (thorough only)
 		}
 		sx.Explore(c, mk(scs[c.Shard]), b, 0, 1)
 	})
